@@ -478,7 +478,9 @@ def run(chk, mode_filter=None, alg_filter=None, only_cells=False, ids=('T2', 'T2
                     l = cf.strip_casts(ev['lhs'])
                     if l.get('k') == 'mem' and l['f'] == 'status':
                         v = cf.evalc(ev.get('rhs'))
-                        okb = v in okbits or (ev['op'] == '=' and v in (COMP, P.enum('IMB_STATUS_INTERNAL_ERROR')))
+                        # a stage bit is OR-ed in (the other stage may have completed already: assigning it would run that stage
+                        # again after RESUBMIT); only whole-job outcomes are assigned
+                        okb = (ev['op'] == '|=' and v in okbits) or (ev['op'] == '=' and v in (COMP, P.enum('IMB_STATUS_INTERNAL_ERROR')))
                         # whole-job AEAD helpers are shared by both stages; they assign COMPLETED
                         t4.check(okb, '%s:%s:%s@%s' % (vt, what, fn, (ev.get('sloc') or ev['loc']).split(':')[-1]), ev.get('sloc') or ev['loc'],
                                  '%s dispatch (%s) sets status %s %s: the %s stage would be recorded as the other stage' % (
